@@ -712,6 +712,11 @@ theorem suspend_eqo {i : Frid} {f : Fid} (hf : (P.frame f).framer = i) {needs : 
   have tr := wf.donePre f _ hp
   simp only [PreactDoneOnly, hf] at tr
   unfold suspend at h
+  by_cases hpl : (P.frame f).auxes.contains aux = true
+  · rw [if_pos hpl] at h
+    simp only [Except.ok.injEq, Prod.mk.injEq] at h
+    rw [← h.2]; exact EQO.refl _ _
+  rw [if_neg hpl] at h
   by_cases hd : (s.fr aux).done = true
   · simp only [hd, if_true] at h
     unfold suspendStart at h
